@@ -4,33 +4,33 @@ import ast
 import copy
 import random
 
+import c09b
 import extract_prec
 import util
 from framework import pmap
 
 ID = 'C09'
-LEAN_MODULES = ['Pfst.Props.C09']
-LEAN_DEPS = ['Pfst.Grammar', 'Pfst.GrammarLemmas', 'Pfst.Prec']
+LEAN_MODULES = ['Pfst.Props.C09', 'Pfst.Props.C09b']
+LEAN_DEPS = ['Pfst.Grammar', 'Pfst.GrammarLemmas', 'Pfst.Prec', 'Pfst.NeedPars', 'Pfst.NeedParsLemmas']
 THEOREMS = ['Pfst.C09.pr_derives', 'Pfst.C09.pr_minimal_derives', 'Pfst.C09.replace_groups', 'Pfst.C09.table_sound',
-            'Pfst.C09.not_derives_sub_right']
+            'Pfst.C09.not_derives_sub_right'] + c09b.THEOREMS
 RULE = ('(i) spec grammar vs CPython: abstract syntax trees over every construct kind (every parent kind x child slot x child '
         'kind at depth 2, random to depth 4) printed by the Lean printer with the minimal policy, parsed by CPython, compared '
         'with the intended tree; (ii) every cell of the regenerated pfst table vs the spec need (Lean, kernel-checked) and '
         'precedence_require_parens on real (parent, child) edges vs the table; (iii) real replace() for every mapped '
         '(parent kind, field) x child kind x layout x code form, judged by ast.parse of the resulting source. '
-        'distinct = distinct (slot, child kind, layout, form) or distinct tree; non-trivial = parentheses needed or child not atomic')
+        'distinct = distinct (slot, child kind, layout, form) or distinct tree; non-trivial = parentheses needed or child not atomic.'
+        + c09b.RULE)
 TRUSTED = ['spec grammar transcription (Pfst/Grammar.lean: Kind.cls/slot/render) and pfst vocabulary bridge (Pfst/Prec.lean); '
            'unambiguity of the grammar is validated against CPython per run, not proved',
-           'modelled: precedence_require_parens_by_type (extracted whole), flag computation of precedence_require_parens; '
-           'not modelled: _is_atom/_is_enclosed_or_line line-structure logic of need_pars (reached by the replace sweep only)',
-           'FormattedValue/Interpolation value slots and Store-context targets are outside the mapped domain']
+           'modelled: precedence_require_parens_by_type (extracted whole), flag computation of precedence_require_parens',
+           'FormattedValue/Interpolation value slots and Store-context targets are outside the mapped domain'] + c09b.TRUSTED
 ASSUMPTIONS = ['CPython ast.parse is the judge of grouping']
 LEVEL_TEXT = ('Lean 4 theorems: for every expression/pattern tree and every parenthesisation policy covering the grammar\'s need, '
               'the printed phrase derives exactly that tree (induction over nested trees); the pfst decision table, regenerated '
               'from /repo on every run over its whole domain, covers the grammar\'s need in every mapped cell (decide +kernel); '
               'the grammar is discriminating (negative derivation proved).')
-LEVEL_NOTE = ('The grammar transcription and its unambiguity are trusted and validated against CPython each run; the line-structure '
-              'part of need_pars is exercised only by the real-replace sweep with CPython as judge.')
+LEVEL_NOTE = ('The grammar transcription and its unambiguity are trusted and validated against CPython each run. ' + c09b.LEVEL_NOTE)
 TECHNIQUE = 'Lean 4 proof (structural induction, decide +kernel over regenerated table) + extraction + correspondence with CPython as judge'
 
 # ---------------------------------------------------------------------------------------------------------------------
@@ -392,6 +392,8 @@ def correspondence(ctx):
                 f'{bad} printed trees do not parse back to the intended tree; first: {ctx.corr_disagreements[0] if ctx.corr_disagreements else ""}')
     # (ii) precedence_require_parens on real edges vs the regenerated table
     edges_vs_table(ctx)
+    # (iv) the put-time decision logic (_is_atom, _is_enclosed_in_parents, _is_enclosed_or_line, need_pars, pars option)
+    c09b.correspondence_c09b(ctx)
 
 
 def _edge_worker(src):
@@ -470,6 +472,7 @@ def edges_vs_table(ctx):
 
 def extract(ctx):
     extract_prec.emit()
+    c09b.extract_c09b(ctx)
 
 
 # ---------------------------------------------------------------------------------------------------------------------
@@ -771,6 +774,7 @@ def search(ctx):
             ctx.fail(_sig(r), f'replace at {r["slot"]} with {r["child"]} ({r["layout"]}, {r["form"]}): {r["fail"]}',
                      {'slot': list(r['slot']), 'child': r['child'], 'layout': r['layout'], 'form': r['form'], 'via': r.get('via', 'replace'), 'result_src': r.get('src')})
     ctx.notes['search_replace_edits'] = len(res)
+    c09b.search_c09b(ctx)
 
 
 def replay(ctx, data):
@@ -778,6 +782,8 @@ def replay(ctx, data):
     if not w:
         print('replay names a broken obligation:', data.get('broken'))
         return
+    if w.get('c09b'):
+        return c09b.replay_c09b(ctx, w)
     key = tuple(w['slot'])
     pat = key in PAT_SLOTS
     psrc, path = (PAT_SLOTS if pat else SLOTS)[key]
